@@ -544,7 +544,13 @@ def loop_stmt(draw, env, depth, followed):
                 clauses.append((("else",), None, (brk,)))
             if not clauses:
                 clauses.append((("else",), None, (brk,)))
-            return ("loop", name, tuple(pre) + (("case", False, tuple(clauses)),))
+            post = ()
+            if draw(st.integers(0, 2)) == 0:
+                # actions behind the case: run at the end of every iteration that was not left by a break
+                a = draw(action(env, allow=("hook", "hook", "assign", "assignstr", "delete")))
+                if a is not None:
+                    post = (a,)
+            return ("loop", name, tuple(pre) + (("case", False, tuple(clauses)),) + post)
         # if-break: a closed match, then a conditional break on data
         m = draw(match(cfg, closed=True, allow_cat=False))
         if env.ints and draw(st.booleans()):
